@@ -20,8 +20,10 @@
 // Entry points: "resolvable" = Resolvable.Init + Resolve (the code under test, directly);
 // "resolver" = Resolver.ResolveGraphQLResponse with one fetch from a static data source answering {"data":j};
 // "arena" = Resolver.ArenaResolveGraphQLResponse with the same fetch;
-// "ext" (-extmod N: every N-th case) = "resolver" with everything that writes `extensions` switched on: authorizer
-// extension, rate limit stats, subgraph extensions (allow list incl. the gateway's reserved keys, last-write), cost control.
+// "x:<mask>" (-extmod N: for every N-th case, 8 masks) = "resolver" with a subset of the sources that write `extensions`
+// switched on: 1 valueCompletion (ApolloCompatibilityValueCompletionInExtensions), 2 authorizer extension, 4 forwarded
+// subgraph extensions (allow list incl. the gateway's reserved keys, last-write), 8 rate limit stats, 16 query plan, 32 trace;
+// cost control always on.
 // "Custom" nodes use the resolver wrapStrings (string s -> {"c": s}, anything else an error). Every field is protected
 // (HasAuthorizationRule); when a case denies a field ("deny") the post-fetch authorizer authz is installed and denies it.
 // Go-side checks that need no oracle: the bytes are exactly one strict JSON value (encoding/json, an
@@ -459,7 +461,7 @@ func guarded(f func() ([]byte, error)) (raw []byte, perr, site string, err error
 	return
 }
 
-var resolver, resolverExt *resolve.Resolver
+var resolver, resolverExt, resolverExtVC *resolve.Resolver
 
 func run(c Case, entry string) Obs {
 	o := Obs{ID: c.ID, Entry: entry}
@@ -504,15 +506,36 @@ func run(c Case, entry string) Obs {
 			if _, err := resolver.ArenaResolveGraphQLResponse(ctx, response(root, data.Bytes(), false), &out); err != nil {
 				return out.Bytes(), err
 			}
-		case "ext":
-			// everything that writes into `extensions` at once: authorizer extension, rate limit stats, forwarded subgraph
-			// extensions (allow list, last-write), plus cost control statistics collected during the print walk
+		default:
+			// "x:<mask>": a SUBSET of the sources that write into `extensions`
+			//   1 valueCompletion (ApolloCompatibilityValueCompletionInExtensions)   2 authorizer extension
+			//   4 forwarded subgraph extensions (allow list, last-write)             8 rate limit stats
+			//  16 query plan                                                         32 trace
+			// cost control statistics are always collected during the print walk
+			mask, merr := strconv.Atoi(strings.TrimPrefix(entry, "x:"))
+			if merr != nil || !strings.HasPrefix(entry, "x:") {
+				return nil, fmt.Errorf("harness: unknown entry %q", entry)
+			}
 			ctx := resolve.NewContext(context.Background())
 			ctx.ExecutionOptions.DisableSubgraphRequestDeduplication = true
-			ctx.SetAuthorizer(authz{ext: true})
-			ctx.SetRateLimiter(limiter{})
-			ctx.RateLimitOptions = resolve.RateLimitOptions{Enable: true, IncludeStatsInResponseExtension: true, Rate: 10, Burst: 10, Period: time.Second, RateLimitKey: "k"}
-			if _, err := resolverExt.ResolveGraphQLResponse(ctx, response(root, data.Bytes(), true), nil, &out); err != nil {
+			if mask&2 != 0 || deny {
+				ctx.SetAuthorizer(authz{ext: mask&2 != 0})
+			}
+			if mask&8 != 0 {
+				ctx.SetRateLimiter(limiter{})
+				ctx.RateLimitOptions = resolve.RateLimitOptions{Enable: true, IncludeStatsInResponseExtension: true, Rate: 10, Burst: 10, Period: time.Second, RateLimitKey: "k"}
+			}
+			if mask&16 != 0 {
+				ctx.ExecutionOptions.IncludeQueryPlanInResponse = true
+			}
+			if mask&32 != 0 {
+				ctx.TracingOptions = resolve.TraceOptions{Enable: true, IncludeTraceOutputInResponseExtensions: true}
+			}
+			rs := resolverExt
+			if mask&1 != 0 {
+				rs = resolverExtVC
+			}
+			if _, err := rs.ResolveGraphQLResponse(ctx, response(root, data.Bytes(), mask&4 != 0), nil, &out); err != nil {
 				return out.Bytes(), err
 			}
 		}
@@ -535,7 +558,7 @@ func main() {
 	in := flag.String("in", "", "cases (NDJSON)")
 	outp := flag.String("out", "", "observations (NDJSON)")
 	entries := flag.String("entries", "resolvable,resolver,arena", "entry points to drive")
-	extmod := flag.Int("extmod", 0, "additionally drive entry \"ext\" (extensions on) for every N-th case (0 = never)")
+	extmod := flag.Int("extmod", 0, "additionally drive 8 extension-source subsets x:<mask> for every N-th case (0 = never)")
 	flag.Parse()
 	f, err := os.Open(*in)
 	if err != nil {
@@ -554,12 +577,17 @@ func main() {
 	rctx, cancel := context.WithCancel(context.Background())
 	defer cancel()
 	resolver = resolve.New(rctx, resolve.ResolverOptions{MaxConcurrency: 4})
-	resolverExt = resolve.New(rctx, resolve.ResolverOptions{MaxConcurrency: 4, AllowCustomExtensionProperties: true,
-		ResolvableOptions: resolve.ResolvableOptions{
-			AllowedSubgraphExtensions:    map[string]struct{}{"k": {}, "authorization": {}, "rateLimit": {}, "trace": {}, "queryPlan": {}, "valueCompletion": {}},
-			ExtensionForwardingAlgorithm: resolve.ExtensionForwardingAlgorithmLastWrite,
-			EnableCostControl:            true,
-		}})
+	extOpts := func(vc bool) resolve.ResolverOptions {
+		return resolve.ResolverOptions{MaxConcurrency: 4, AllowCustomExtensionProperties: true,
+			ResolvableOptions: resolve.ResolvableOptions{
+				AllowedSubgraphExtensions:    map[string]struct{}{"k": {}, "authorization": {}, "rateLimit": {}, "trace": {}, "queryPlan": {}, "valueCompletion": {}},
+				ExtensionForwardingAlgorithm: resolve.ExtensionForwardingAlgorithmLastWrite,
+				EnableCostControl:            true,
+				ApolloCompatibilityValueCompletionInExtensions: vc,
+			}}
+	}
+	resolverExt = resolve.New(rctx, extOpts(false))
+	resolverExtVC = resolve.New(rctx, extOpts(true))
 	sc := bufio.NewScanner(f)
 	sc.Buffer(make([]byte, 1<<20), 1<<26)
 	enc := json.NewEncoder(w)
@@ -577,7 +605,11 @@ func main() {
 		}
 		es := strings.Split(*entries, ",")
 		if *extmod > 0 && n%*extmod == 0 {
-			es = append(es, "ext")
+			// all subsets of {valueCompletion, authorization, subgraph}; the rate limit / query plan / trace bits rotate with the case
+			hi := (n / *extmod) % 8
+			for lo := 0; lo < 8; lo++ {
+				es = append(es, fmt.Sprintf("x:%d", lo|hi<<3))
+			}
 		}
 		for _, e := range es {
 			if err := enc.Encode(run(c, e)); err != nil {
